@@ -388,6 +388,14 @@ func (c *cache) remoteSync(ctx context.Context, ptr *node.Pointer, fetcher readS
 		return err
 	}
 
+	// Only proofs of the requested version are merged into the in-memory tree. A version 1 proof
+	// may carry the leaf of an internal node as a bare hash, which the cache would treat as an
+	// evicted leaf: once such a node is made dirty by a local write it can no longer be re-fetched
+	// and its whole subtree would read as absent.
+	if proof.V != syncProofsVersion {
+		return fmt.Errorf("mkvs: got proof of unexpected version (%d)", proof.V)
+	}
+
 	// The proof can be for one of two hashes: i) it is either for ptr.Hash in case
 	// all the nodes are only contained in the subtree below ptr, or ii) it is for
 	// the c.syncRoot.Hash in case it contains nodes outside the subtree.
